@@ -37,7 +37,9 @@ package binaryheap
 //@   ghostresult pinv mapint
 //@   ensures [C06] Shape(heap) && Config(heap) && OrdFrom(heap, index) && Permuted(heap, perm, pinv)
 //@   ensures [C06] forall k :: 0 <= k && k < index ==> perm[k] == k && pinv[k] == k
+//@   ensures [C06 C11] stable: old(OrdFrom(heap, index)) ==> (forall k :: 0 <= k && k < N(heap) ==> perm[k] == k && pinv[k] == k)
 //@   loop 1:
+//@     invariant old(OrdFrom(heap, index0)) ==> (forall k :: 0 <= k && k < N(heap) ==> perm[k] == k && pinv[k] == k)
 //@     invariant Shape(heap) && Config(heap) && size == N(heap) && index0 <= index && Permuted(heap, perm, pinv) && leftIndex == 2*index + 1
 //@     invariant forall k :: 0 <= k && k < index0 ==> perm[k] == k && pinv[k] == k
 //@     invariant forall j :: 1 <= j && j < N(heap) && index0 <= fdiv(j-1, 2) && fdiv(j-1, 2) != index ==> Le(heap, fdiv(j-1, 2), j)
@@ -166,6 +168,7 @@ package binaryheap
 //@     invariant Shape(heap) && Config(heap) && 0 - 1 <= i && OrdFrom(heap, i + 1) && err == nil && jarr_kind(data, elemof(heap.list.elements)) >= 2
 //@     invariant (jarr_kind(data, elemof(heap.list.elements)) == 2 ==> N(heap) == 0) && (jarr_kind(data, elemof(heap.list.elements)) == 3 ==> N(heap) == jarr_len(data, elemof(heap.list.elements)))
 //@     invariant IsPerm(src, sinv, N(heap)) && (jarr_kind(data, elemof(heap.list.elements)) == 3 ==> (forall k :: 0 <= k && k < N(heap) ==> L(heap)[k] == jarr_at(data, src[k], elemof(heap.list.elements))))
+//@     invariant jarr_kind(data, elemof(heap.list.elements)) == 3 && (forall j :: 1 <= j && j < jarr_len(data, elemof(heap.list.elements)) ==> heap.Comparator(jarr_at(data, fdiv(j-1, 2), elemof(heap.list.elements)), jarr_at(data, j, elemof(heap.list.elements))) <= 0) ==> (forall k :: 0 <= k && k < N(heap) ==> src[k] == k && sinv[k] == k)
 //@     decreases i + 1
 //@   ghostresult src mapint
 //@   ghostresult sinv mapint
@@ -173,6 +176,8 @@ package binaryheap
 //@   ensures [C12] atomic: result != nil ==> L(heap) == old(L(heap))
 //@   ensures [C06 C11 C12] loaded: jarr_kind(data, elemof(heap.list.elements)) == 3 ==> N(heap) == jarr_len(data, elemof(heap.list.elements)) && IsPerm(src, sinv, N(heap)) && (forall k :: 0 <= k && k < N(heap) ==> L(heap)[k] == jarr_at(data, src[k], elemof(heap.list.elements)))
 //@   ensures [C12] null: jarr_kind(data, elemof(heap.list.elements)) == 2 ==> N(heap) == 0
+//@   -- a document that already is in heap order (every ToJSON output is) is loaded in exactly its layout, ties included, so the Pop sequence is the saved heap's (C11)
+//@   ensures [C11] stable: jarr_kind(data, elemof(heap.list.elements)) == 3 && (forall j :: 1 <= j && j < jarr_len(data, elemof(heap.list.elements)) ==> heap.Comparator(jarr_at(data, fdiv(j-1, 2), elemof(heap.list.elements)), jarr_at(data, j, elemof(heap.list.elements))) <= 0) ==> (forall k :: 0 <= k && k < N(heap) ==> L(heap)[k] == jarr_at(data, k, elemof(heap.list.elements)))
 
 //@ -- the loaded content is the document rearranged by src (a permutation): heap order is re-established (C06, C12)
 //@ func Heap.UnmarshalJSON
